@@ -9,6 +9,7 @@ MCLsq/MCFmatch (TLC wrappers).  Binding: (i) the real csg_imc_solve executable o
 (ii) tools::linalg_constrained_qrsolve through harness/drivers/lsq.cc, (iii) the real csg_fmatch executable on
 generated topology/options/lammps-dump files, forces generated with the real tools::CubicSpline."""
 import fcntl
+import math
 import glob
 import json
 import os
@@ -393,30 +394,63 @@ def fm_variant(rec):
 
 def fm_label(rec, c):
     it = rec["inter"][c]
+    if rec["layout"] >= 3:
+        return "angle" if rec["layout"] == 3 else "dihedral-periodic"
     return "bond" if it["bond"] else ("pair" if it["name"] == "A-A" else "pair-AB")
+
+
+def fm_unit(rec):
+    """size of one spline-grid unit of the TLC record in the units of the options file (nm resp. rad)"""
+    if rec["layout"] >= 3:
+        return math.radians(rec["inter"][0]["udeg"])
+    return 1.0 / rec["gden"]
 
 
 def fm_grid(rec):
     """(min, max, step, out_step) as the strings that go both into the options file and to the generator"""
+    if rec["layout"] >= 3:
+        return ("%.10f" % math.radians(rec["kdeg"][0]), "%.10f" % math.radians(rec["kdeg"][-1]),
+                "%.10f" % math.radians(rec["stepdeg"]), "%.10f" % math.radians(rec["stepdeg"] / float(rec["osub"])))
     gmax = rec["gmin"] + (rec["n"] - 1) * rec["gstep"]
     d = float(rec["gden"])
     return repr(rec["gmin"] / d), repr(gmax / d), repr(rec["gstep"] / d), repr(rec["gstep"] / (d * rec["osub"]))
 
 
 def fm_outgrid(rec):
-    nout = (rec["n"] - 1) * rec["osub"] + 1
+    nout = rec["nout"]
+    if rec["layout"] >= 3:
+        mn, _, _, ost = fm_grid(rec)
+        return [float(mn) + i * float(ost) for i in range(nout)]
     return [(rec["gmin"] * rec["osub"] + i * rec["gstep"]) / float(rec["gden"] * rec["osub"]) for i in range(nout)]
 
 
-def fm_generator_cmds(rec):
-    """per interaction: the real CubicSpline evaluates the force function at every pair distance of that class
-    (TLC's pair list) and at the output grid points"""
+def fm_instance_cmds(rec):
+    """angle/dihedral instances: the real IAngle/IDihedral evaluate variable and gradients of every molecule"""
+    kind = "angle" if rec["layout"] == 3 else "dihedral"
+    cmds = []
+    for fr in rec["frames"]:
+        for m in range(rec["nm"]):
+            ps = fr["pos"][m * rec["mb"]:(m + 1) * rec["mb"]]
+            cmds.append("ia %s %s" % (kind, " ".join(repr(c / UNIT) for p_ in ps for c in p_)))
+    return cmds
+
+
+def fm_generator_cmds(rec, ivars=None):
+    """per interaction: the real CubicSpline evaluates the force function - given by its knot values and the exact
+    second derivatives of the TLC record (setSplineData) - at every pair distance / instance variable of that class and
+    at the output grid points"""
     mn, mx, st, _ = fm_grid(rec)
+    u = fm_unit(rec)
     cmds = []
     for c, it in enumerate(rec["inter"]):
-        rs = [repr((p[2] ** 0.5) / UNIT) for fr in rec["frames"] for p in fr["pairs"] if p[3] == c + 1]
+        if rec["layout"] >= 3:
+            rs = [repr(v) for v in ivars]
+        else:
+            rs = [repr((p[2] ** 0.5) / UNIT) for fr in rec["frames"] for p in fr["pairs"] if p[3] == c + 1]
         rs += [repr(x) for x in fm_outgrid(rec)]
-        cmds.append("spl %s %s %s %d %s %d %s" % (mn, mx, st, rec["n"], " ".join(num(v) for v in it["y"]), len(rs), " ".join(rs)))
+        f2 = [repr(v / float(it["m2den"]) / (u * u)) for v in it["m2num"]]
+        cmds.append("spd %s %s %s %d %s %s %d %s" % (mn, mx, st, rec["n"], " ".join(num(v) for v in it["y"]), " ".join(f2),
+                                                     len(rs), " ".join(rs)))
     return cmds
 
 
@@ -429,7 +463,7 @@ def fm_write_dump(path, rec, forces):
                 f.write("%d 1 %r %r %r %r %r %r\n" % (i + 1, q[0] * 1.25, q[1] * 1.25, q[2] * 1.25, ff[0], ff[1], ff[2]))
 
 
-def fm_write_inputs(rec, d, gvals):
+def fm_write_inputs(rec, d, gvals, grads=None):
     """reference forces F_i = sum_j G_class(r_ij) (p_i - p_j)/r_ij + noise_i ; lammps dump (positions k*1.25 Angstrom).
     gvals[c] = values of interaction c at its pair distances, in the order of the TLC pair lists."""
     nb = rec["nb"]
@@ -439,6 +473,9 @@ def fm_write_inputs(rec, d, gvals):
         if rec["layout"] == 2:
             f.write('<molecule name="M" nmols="%d" nbeads="2"><bead name="A" type="A" mass="1" q="0"/>'
                     '<bead name="B" type="A" mass="1" q="0"/></molecule>' % (nb // 2))
+        elif rec["layout"] >= 3:
+            f.write('<molecule name="M" nmols="%d" nbeads="%d">%s</molecule>' % (rec["nm"], rec["mb"], "".join(
+                '<bead name="%s" type="A" mass="1" q="0"/>' % "ABCD"[k] for k in range(rec["mb"]))))
         else:
             na = sum(1 for t in rec["types"] if t == "A")
             f.write('<molecule name="MA" nmols="%d" nbeads="1"><bead name="A" type="A" mass="1" q="0"/></molecule>' % na)
@@ -447,13 +484,20 @@ def fm_write_inputs(rec, d, gvals):
         f.write("</molecules>")
         if rec["layout"] == 2:
             f.write("<bonded><bond><name>bond1</name><beads>M:A M:B</beads></bond></bonded>")
+        elif rec["layout"] == 3:
+            f.write("<bonded><angle><name>angle1</name><beads>M:A M:B M:C</beads></angle></bonded>")
+        elif rec["layout"] == 4:
+            f.write("<bonded><dihedral><name>dih1</name><beads>M:A M:B M:C M:D</beads></dihedral></bonded>")
         f.write("</topology>\n")
     with open(os.path.join(d, "settings.xml"), "w") as f:
         f.write("<cg>%s<fmatch><constrainedLS>%s</constrainedLS><frames_per_block>%d</frames_per_block></fmatch>" % (
             "<nbsearch>grid</nbsearch>" if rec["s"] % 2 else "", "true" if rec["con"] else "false", rec["b"]))
         fm = "<fmatch><min>%s</min><max>%s</max><step>%s</step><out_step>%s</out_step></fmatch>" % (mn, mx, st, ost)
         for it in rec["inter"]:
-            if it["bond"]:
+            if rec["layout"] >= 3:
+                fmb = fm.replace("</fmatch>", "<periodic>1</periodic></fmatch>") if it["periodic"] else fm
+                f.write("<bonded><name>%s</name>%s</bonded>" % (it["name"], fmb))
+            elif it["bond"]:
                 f.write("<bonded><name>%s</name>%s</bonded>" % (it["name"], fm))
             else:
                 t1, t2 = it["name"].split("-")
@@ -461,8 +505,17 @@ def fm_write_inputs(rec, d, gvals):
         f.write("</cg>\n")
     k = [0] * len(rec["inter"])
     forces = []
+    inst = 0
     for fr in rec["frames"]:
         F = [[float(c) for c in nz] for nz in fr["noise"]]
+        if rec["layout"] >= 3:
+            # F_bead = G(variable) * d variable / d r_bead  (the written table is minus the coefficient of the fit)
+            for m in range(rec["nm"]):
+                g = gvals[0][inst]
+                for kb in range(rec["mb"]):
+                    for a in range(3):
+                        F[m * rec["mb"] + kb][a] += g * grads[inst][3 * kb + a]
+                inst += 1
         for (i, j, d2, cl) in fr["pairs"]:
             g = gvals[cl - 1][k[cl - 1]]
             k[cl - 1] += 1
@@ -480,10 +533,10 @@ def fm_write_inputs(rec, d, gvals):
         fm_write_dump(os.path.join(d, "known.dump"), rec, known)
 
 
-def fm_execute(exe, env, d, rec, run, gvals):
+def fm_execute(exe, env, d, rec, run, gvals, grads=None):
     shutil.rmtree(d, ignore_errors=True)
     os.makedirs(d)
-    fm_write_inputs(rec, d, gvals)
+    fm_write_inputs(rec, d, gvals, grads)
     cmd = [exe, "--top", "topol.xml", "--trj", "traj_tot.dump" if run["tf"] else "traj.dump", "--options", "settings.xml", "--no-map"]
     if run["tf"]:
         cmd += ["--trj-force", "known.dump"]
@@ -569,20 +622,36 @@ def fm_compare(ctx, rec, outs, conv, gout):
 
 
 def fm_text(rec):
-    return ("[layout %d: %s; %d beads, %d frames, frames_per_block=%d (%d blocks), constrainedLS=%s, grid %s..%s step %s "
+    return ("[layout %d: %s%s; %d beads, %d frames, frames_per_block=%d (%d blocks), constrainedLS=%s, grid %s..%s step %s "
             "out_step %s, knot values %s%s%s, seed %d]" % (
-                rec["layout"], "+".join(it["name"] for it in rec["inter"]), rec["nb"], len(rec["frames"]), rec["b"], rec["K"],
+                rec["layout"], "+".join(it["name"] for it in rec["inter"]),
+                " (fmatch.periodic)" if rec["inter"][0].get("periodic") else "", rec["nb"], len(rec["frames"]), rec["b"], rec["K"],
                 "true" if rec["con"] else "false", fm_grid(rec)[0], fm_grid(rec)[1], fm_grid(rec)[2], fm_grid(rec)[3],
                 [it["y"] for it in rec["inter"]], " + noise" if rec["noisy"] else "", " + trj-force run" if rec["tf"] else "",
                 rec["s"]))
 
 
 def run_fmatch(ctx, fms, exe_fm, exe_drv, env, base, workers):
-    items = [("conv", ["fconv"])] + [(i, fm_generator_cmds(r)) for i, r in enumerate(fms)]
+    # stage 1: variables and gradients of the angle/dihedral instances from the real interaction classes
+    items = [("conv", ["fconv"])] + [(i, fm_instance_cmds(r)) for i, r in enumerate(fms) if r["layout"] >= 3]
     results, crashes = vlib.run_items(exe_drv, items, env=env)
     if crashes:
-        raise vlib.InfraError("force-field generator (drv_lsq spl) failed: %s" % list(crashes.values())[:1])
+        raise vlib.InfraError("instance evaluation (drv_lsq ia) failed: %s" % list(crashes.values())[:1])
     conv = float(results["conv"][0][0].split()[1])
+    ivars, grads = {}, {}
+    for i, r in enumerate(fms):
+        if r["layout"] >= 3:
+            vals = [[float(t) for t in out[0].split()[1:]] for out in results[i]]
+            ivars[i] = [v[0] for v in vals]
+            grads[i] = [v[1:] for v in vals]
+            mn, mx = float(fm_grid(r)[0]), float(fm_grid(r)[1])
+            if any(not (mn < v < mx) for v in ivars[i]):
+                raise vlib.InfraError("real interaction variable outside the grid the model placed it in: %s" % ivars[i])
+    # stage 2: the force function at these variables / pair distances and on the output grid
+    items = [(i, fm_generator_cmds(r, ivars.get(i))) for i, r in enumerate(fms)]
+    results, crashes = vlib.run_items(exe_drv, items, env=env)
+    if crashes:
+        raise vlib.InfraError("force-field generator (drv_lsq spd) failed: %s" % list(crashes.values())[:1])
     gvals, gout = {}, {}
     for i, r in enumerate(fms):
         nout = len(fm_outgrid(r))
@@ -598,7 +667,7 @@ def run_fmatch(ctx, fms, exe_fm, exe_drv, env, base, workers):
 
     def work(job):
         i, run = job
-        return fm_execute(exe_fm, env, os.path.join(base, "f%06d-%s" % (i, run["id"])), fms[i], run, gvals[i])
+        return fm_execute(exe_fm, env, os.path.join(base, "f%06d-%s" % (i, run["id"])), fms[i], run, gvals[i], grads.get(i))
 
     with ThreadPoolExecutor(max_workers=workers) as ex:
         res = list(ex.map(work, jobs))
@@ -606,14 +675,20 @@ def run_fmatch(ctx, fms, exe_fm, exe_drv, env, base, workers):
     for (i, run), o in zip(jobs, res):
         outs.setdefault(i, {})[run["id"]] = o
     classes = {}
-    feats = {"layout0": 0, "layout1:two-pair-interactions": 0, "layout2:bond+pair": 0, "decimal-grid": 0, "out_step<step": 0,
+    feats = {"layout0": 0, "layout1:two-pair-interactions": 0, "layout2:bond+pair": 0, "layout3:angle": 0,
+             "layout4:dihedral-periodic:plain": 0, "layout4:dihedral-periodic:constrained": 0,
+             "layout4:non-equidistant-grid": 0, "decimal-grid": 0, "out_step<step": 0,
              "trj-force": 0, "nbsearch-grid": 0, "blocks>=2": 0}
     for i, rec in enumerate(fms):
         ctx.traces += len(rec["runs"])
         cl = "layout%d,%s,K=%d,b=%d%s" % (rec["layout"], fm_variant(rec), rec["K"], rec["b"], ",noisy" if rec["noisy"] else "")
         classes[cl] = classes.get(cl, 0) + 1
         for k, on in (("layout0", rec["layout"] == 0), ("layout1:two-pair-interactions", rec["layout"] == 1),
-                      ("layout2:bond+pair", rec["layout"] == 2), ("decimal-grid", rec["gden"] == 10),
+                      ("layout2:bond+pair", rec["layout"] == 2), ("layout3:angle", rec["layout"] == 3),
+                      ("layout4:dihedral-periodic:plain", rec["layout"] == 4 and not rec["con"]),
+                      ("layout4:dihedral-periodic:constrained", rec["layout"] == 4 and rec["con"]),
+                      ("layout4:non-equidistant-grid", rec["layout"] == 4 and rec["stepdeg"] == 80),
+                      ("decimal-grid", rec["gden"] == 10),
                       ("out_step<step", rec["osub"] > 1), ("trj-force", rec["tf"]), ("nbsearch-grid", rec["s"] % 2 == 1),
                       ("blocks>=2", rec["K"] >= 2)):
             feats[k] += 1 if on else 0
@@ -622,7 +697,7 @@ def run_fmatch(ctx, fms, exe_fm, exe_drv, env, base, workers):
         bad = fm_compare(ctx, rec, outs[i], conv, gout[i])
         if bad:
             # re-run once before reporting (DESIGN 7.7)
-            again = {run["id"]: fm_execute(exe_fm, env, os.path.join(base, "g%06d-%s" % (i, run["id"])), rec, run, gvals[i])
+            again = {run["id"]: fm_execute(exe_fm, env, os.path.join(base, "g%06d-%s" % (i, run["id"])), rec, run, gvals[i], grads.get(i))
                      for run in rec["runs"]}
             bad2 = {k for k, _ in fm_compare(ctx, rec, again, conv, gout[i])}
             for key, text in bad:
@@ -745,7 +820,7 @@ def _run(ctx, quick, workers, exe_imc, exe_drv, env, base, exe_fm):
             raise vlib.InfraError("minimiser lemmas were vacuous (%d, %d)" % (small_t, small_c))
         ctx.extra["minimiser_lemma_systems"] = {"tikhonov": small_t, "constrained": small_c}
         # ---- csg_fmatch instances (relational clauses) -------------------------------------------------
-        nfm = 120 if quick else 3200
+        nfm = 240 if quick else 4000
         for s0 in range(seed0, seed0 + nfm, 800):
             fms += _tlc(ctx, "MCFmatch", "Fmatch: block windows, relation coefficients, pair lists, chain construction, guard",
                         {"C06_SEED0": s0, "C06_NSEEDS": min(800, seed0 + nfm - s0)}, module="MCFmatch")
